@@ -237,3 +237,29 @@ Proof.
   intros Hl Hne. unfold input_energy_series, input_energy. apply last_cumsum.
   destruct motion, v; cbn in *; congruence.
 Qed.
+
+(** * the input-energy sign clause is refuted for the rectangle-rule sum *)
+From Interval Require Import Tactic.
+Lemma input_energy_negative_witness : exists xi w dt (rec : list R), 0 < w /\ 0 <= xi < 1 /\ 0 < dt /\
+  input_energy dt rec (map snd (nj_series (nj_coeffs xi w dt) rec)) < 0.
+Proof.
+  exists (1 / 20), (62831853 / 10000000 / (1 / 2)), (1 / 10), [-3; 1].
+  split; [lra|]. split; [lra|]. split; [lra|].
+  unfold input_energy, nj_series. cbn [map nj_run nj_step nj_coeffs fst snd a21 a22 b21 b22 a11 a12 b11 b12 map2 nsum fold_left].
+  numR.
+  assert (H : nj_b21 (1 / 20) (62831853 / 10000000 / (1 / 2)) (1 / 10) * 3 + nj_b22 (1 / 20) (62831853 / 10000000 / (1 / 2)) (1 / 10) * -1 < 0).
+  { cbv delta [nj_b21 nj_b22] beta zeta. interval with (i_prec 100). }
+  lra.
+Qed.
+
+Lemma obj_factor_example : obj_factor 1 4 [2; 5] = 4%Z.
+Proof.
+  unfold obj_factor, target_dt, min_nonzero_period, nceil. numR. cbn [nofZ NumR hd].
+  case_Reqb 2 0; [lra|].
+  assert (E : nmax (2 / 20) (1 / 4) = 1 / 4) by (rewrite nmax_R; apply Rmax_right; lra).
+  rewrite E. case_Rltb (1 / 4) 1; [|lra].
+  replace (1 / (1 / 4)) with 4 by field.
+  pose proof (nceil_spec 4) as [H1 H2]. unfold nceil in *. cbn [nfloor NumR nopp] in *.
+  match goal with |- ?z = _ => assert (Hz : (4 <= z < 5)%Z) by (split; [apply le_IZR | apply lt_IZR]; lra) end.
+  lia.
+Qed.
